@@ -176,6 +176,24 @@ def run(ctx):
             ctx.broken.append("libm cos/sin of pi/2^k differ from the roots computed in Coq, or cos/sin of the negated angle are not (c, -s)")
         elif not r["gates_same"] or not r["builder_same"]:
             ctx.broken.append("TryFrom<Subroutine> and CircuitBuilder::add_subroutine disagree on %s" % json.dumps(brief(c)))
+    # registers of 12 (13) qubits, with listed qubits of index >= 11: a few columns against the DFT written out in the harness
+    # (outside Coq: the model's evaluation is quadratic in the vector length)
+    rng = ctx.rng
+    bigs = []
+    for n in ((12, 13) if not ctx.thorough() else (12, 13, 14, 15)):
+        for inverse in (False, True):
+            lows = rng.sample(range(0, 11), rng.randrange(1, 4))
+            qs = [n - 1] + lows if rng.random() < 0.5 else lows + [n - 1, 11]
+            qs = list(dict.fromkeys(qs)); rng.shuffle(qs)
+            bigs.append({"op": "qft_big", "n": n, "qs": qs, "inverse": inverse, "cols": [0, (1 << n) - 1, rng.randrange(1 << n), rng.randrange(1 << n)]})
+    bst = {"cases": len(bigs), "ok": 0}
+    for c, r in zip(bigs, run_harness(bigs, nproc=8)):
+        if r.get("r") == "ok" and r.get("maxdiff") == r.get("maxdiff") and r["maxdiff"] <= 1e-10: bst["ok"] += 1
+        else:
+            ctx.violations.append(("%s on qubits %s of a %d-qubit register: column of basis state %s differs from the DFT at index %s (max difference %s)%s" % (
+                "iqft" if c["inverse"] else "qft", c["qs"], c["n"], r.get("col"), r.get("row"), r.get("maxdiff"), "" if r.get("r") == "ok" else " - %s %s" % (r.get("r"), r.get("e", ""))),
+                {"big_case": c, "impl": r}))
+    stats["large_registers"] = bst
     ctx.broken = ctx.broken[:5]
     sizes = {}
     for c in cases:
@@ -190,6 +208,10 @@ def run(ctx):
 
 def replay(ctx, path):
     body = json.load(open(path))
+    if body["replay"].get("big_case"):
+        r = run_harness([body["replay"]["big_case"]])[0]
+        print(json.dumps({"case": body["replay"]["big_case"], "impl": r}))
+        return 0 if (r.get("r") == "ok" and r.get("maxdiff", 1) <= 1e-10) else 1
     case = body["replay"].get("case")
     if not case:
         print("replay file carries no concrete case:", body["what"]); return 1
